@@ -3,6 +3,7 @@
 package lab
 
 import (
+	"syscall"
 	"github.com/saucelabs/forwarder"
 	"bufio"
 	"bytes"
@@ -36,8 +37,41 @@ type fltEnv struct {
 	thostile    []*Peer // answer the TLS hello with hostileTLSReplies[i]   (hostile-<i>.test)
 	upstream    *Peer // HTTP proxy: scripted replies to absolute-form, CONNECT: reject-<code>.test or tunnel
 	refused     string
+	blackhole   string // an address on which connection attempts time out ("" if none could be built)   (blackhole.test)
 	proxies     map[string]*ProxyInst
 }
+
+// newBlackhole: a listening socket with a backlog of 0 whose accept queue is full - further SYNs are not answered, a
+// connection attempt runs into the dialler's time-out (the real one, not an error made up by a wrapper).
+func newBlackhole() string {
+	fd, err := syscall.Socket(syscall.AF_INET, syscall.SOCK_STREAM, 0)
+	if err != nil {
+		return ""
+	}
+	if syscall.Bind(fd, &syscall.SockaddrInet4{Addr: [4]byte{127, 0, 0, 11}}) != nil || syscall.Listen(fd, 0) != nil {
+		syscall.Close(fd)
+		return ""
+	}
+	sa, err := syscall.Getsockname(fd)
+	if err != nil {
+		return ""
+	}
+	addr := net.JoinHostPort("127.0.0.11", strconv.Itoa(sa.(*syscall.SockaddrInet4).Port))
+	for i := 0; i < 64; i++ {
+		c, err := net.DialTimeout("tcp", addr, 300*time.Millisecond)
+		if err != nil {
+			var ne net.Error
+			if errors.As(err, &ne) && ne.Timeout() {
+				return addr
+			}
+			return ""
+		}
+		blackholeFill = append(blackholeFill, c) // kept open for the life of the process
+	}
+	return ""
+}
+
+var blackholeFill []net.Conn
 
 var (
 	fltOnce sync.Once
@@ -69,6 +103,10 @@ func (e *fltEnv) resolve(target string) string {
 		return e.teof.Addr
 	case "refused.test":
 		return e.refused
+	case "blackhole.test":
+		if e.blackhole != "" {
+			return e.blackhole
+		}
 	}
 	if rest, ok := strings.CutPrefix(strings.ToLower(h), "hostile-"); ok {
 		if i, err := strconv.Atoi(strings.TrimSuffix(rest, ".test")); err == nil && i >= 0 && i < len(e.thostile) {
@@ -159,7 +197,11 @@ func getFlt() (*fltEnv, error) {
 			}
 		}
 		var rules []string
+		e.blackhole = newBlackhole()
 		names := []string{"origin.test", "tls.test", "badcert.test", "garbage.test", "eof.test", "refused.test"}
+		if e.blackhole != "" {
+			names = append(names, "blackhole.test")
+		}
 		for i := range hostileTLSReplies {
 			names = append(names, fmt.Sprintf("hostile-%d.test", i))
 		}
@@ -174,6 +216,9 @@ func getFlt() (*fltEnv, error) {
 			}
 			o.CA, o.RootCAs, o.WrapDial, o.ConnectTo = e.ca, e.ca.Pool, wrap, rules
 			o.DialTimeout, o.ConnectTimeout = 3*time.Second, 5*time.Second
+			if o.ShortDial {
+				o.DialTimeout, o.DialAttempts, o.DialBackoff = 150*time.Millisecond, 2, 10*time.Millisecond
+			}
 			p, err := StartProxy(o)
 			if err != nil {
 				fltErr = fmt.Errorf("proxy %s: %w", name, err)
@@ -189,6 +234,9 @@ func getFlt() (*fltEnv, error) {
 		mk("direct+bodylog", ProxyOpts{LogHTTPMode: "body"})
 		mk("upstream+bodylog", ProxyOpts{Upstream: "http://" + e.upstream.Addr, LogHTTPMode: "body"})
 		mk("mitm+bodylog", ProxyOpts{MITM: true, LogHTTPMode: "body"})
+		// instances that give a connection attempt 150 ms, twice: for targets that do not answer at all
+		mk("direct-st", ProxyOpts{ShortDial: true})
+		mk("mitm-st", ProxyOpts{MITM: true, ShortDial: true})
 		// a PROXY-protocol listener (C13: connections that never get past the header are accounted like any other)
 		mk("pp", ProxyOpts{ProxyProtocol: &forwarder.ProxyProtocolConfig{ReadHeaderTimeout: 150 * time.Millisecond}})
 		if fltErr == nil {
@@ -246,13 +294,13 @@ func genFltExch(t *rapid.T) FltExch {
 	case x.Route == "deadup":
 		faults = []string{"deadup"}
 	case x.Method == "CONNECT" && x.Route == "direct":
-		faults = []string{"none", "refused", "dial-timeout", "tunnel-cut", "tunnel-rst"}
+		faults = []string{"none", "refused", "dial-timeout", "syn-timeout", "tunnel-cut", "tunnel-rst"}
 	case x.Method == "CONNECT" && x.Route == "upstream":
 		faults = []string{"none", "upstream-reject", "upstream-reject", "tunnel-cut", "tunnel-rst"}
 	case x.Route == "direct":
-		faults = []string{"none", "refused", "dial-timeout", "cut", "cut", "cut", "rst", "rst", "bad-status", "bad-chunk", "dup-cl"}
+		faults = []string{"none", "refused", "dial-timeout", "syn-timeout", "cut", "cut", "cut", "rst", "rst", "bad-status", "bad-chunk", "dup-cl"}
 	case x.Route == "mitm":
-		faults = []string{"none", "refused", "dial-timeout", "tls-garbage", "tls-hostile", "tls-hostile", "tls-eof", "tls-badcert", "cut", "cut", "rst", "bad-status", "bad-chunk"}
+		faults = []string{"none", "refused", "dial-timeout", "syn-timeout", "tls-garbage", "tls-hostile", "tls-hostile", "tls-eof", "tls-badcert", "cut", "cut", "rst", "bad-status", "bad-chunk"}
 	case x.Route == "upstream":
 		faults = []string{"none", "cut", "cut", "rst", "bad-status", "bad-chunk", "dup-cl"}
 	case x.Route == "mitm-upstream":
@@ -299,6 +347,9 @@ func genFltExch(t *rapid.T) FltExch {
 	if x.Fault == "bad-status" {
 		x.K = rapid.SampledFrom([]int{0, 0, 1500, 3000, 6000}).Draw(t, "badstatuslen")
 	}
+	if x.Fault == "syn-timeout" && rapid.IntRange(0, 2).Draw(t, "realtimeout") != 0 {
+		x.Fault = "dial-timeout" // the real thing takes its time: one in three
+	}
 	x.Follow = rapid.IntRange(0, 2).Draw(t, "follow") != 0
 	return x
 }
@@ -331,6 +382,11 @@ func fltHost(x FltExch) string {
 		return "refused.test:80"
 	case "dial-timeout":
 		return "timeout.test:81"
+	case "syn-timeout":
+		if tlsRoute {
+			return "blackhole.test:443"
+		}
+		return "blackhole.test:80"
 	case "tls-garbage":
 		return "garbage.test:443"
 	case "tls-hostile":
@@ -394,6 +450,13 @@ func (e *fltEnv) exchange(x FltExch, id int64, idx int) (o fltOutcome) {
 	px := e.proxies[x.Route]
 	if x.BodyLog {
 		px = e.proxies[x.Route+"+bodylog"]
+	}
+	if x.Fault == "syn-timeout" {
+		if e.blackhole == "" {
+			x.Fault = "dial-timeout" // no endpoint that swallows SYNs could be built here: the made-up time-out instead
+		} else {
+			px = e.proxies[x.Route+"-st"]
+		}
 	}
 	vid := fmt.Sprintf("%d-%d", id, idx)
 	host := fltHost(x)
@@ -614,7 +677,7 @@ func judgeFlt(x FltExch, o fltOutcome) (fails []vstat.Failure) {
 		if x.Var != 3 {
 			wantExact = 502
 		}
-	case "dial-timeout":
+	case "dial-timeout", "syn-timeout":
 		wantExact = 504
 	}
 	switch o.kind {
@@ -657,7 +720,7 @@ func judgeFlt(x FltExch, o fltOutcome) (fails []vstat.Failure) {
 			} else if x.Method != "HEAD" && string(m.Body) != want {
 				fails = append(fails, vstat.Failf(key("reject-body"), "upstream's reply body %q arrived as %q: %s", want, m.Body, desc))
 			}
-		case "refused", "dial-timeout", "tls-garbage", "tls-hostile", "tls-eof", "tls-badcert", "deadup", "bad-status", "dup-cl":
+		case "refused", "dial-timeout", "syn-timeout", "tls-garbage", "tls-hostile", "tls-eof", "tls-badcert", "deadup", "bad-status", "dup-cl":
 			fails = append(fails, vstat.Failf(key("no-forwarder-error"), "a complete reply without X-Forwarder-Error although no origin reply exists: %s", desc))
 		default:
 			// none / cut / rst / bad-chunk: a complete relayed reply must be the whole intended reply
